@@ -14,14 +14,22 @@ func main() { Main("c01", run) }
 
 func run(seed uint64, n int, tier string, outDir string) []*Stats {
 	r := NewRng(seed)
+	cf := NewCoqFile("From V Require Import Common.Base C01.Utf C01.Quote C01.SpecLiteral C01.Harness.")
+	extra := ""
+
+	// 1. literal printers against the Coq model (hook level) + predicate
+	sts := NewStats("c01-strings", seed)
+	extra += corrStrings(r, sts, cf, 2*n)
+	sts.Finish("string/template/identifier printing: boundary grid of every special case of printUnquotedUTF16 plus seeded UTF-16 sequences over all classes (controls, quotes, ${, </script in any case, U+2028/2029/FEFF, Latin-1, BMP, paired and lone surrogates) x random printer configuration (charset, unicode-escapes, inline-script guard, line limit, minify-syntax, template support, prefix column); exact bytes compared with the Coq model and the printed literal decoded by the specification; distinct_nontrivial = distinct (units, configuration) whose output is not the identity")
+
+	// 2. behaviour through the public API (node oracle)
 	st := NewStats("c01", seed)
-	cf := NewCoqFile("From V Require Import Common.Base.")
 	glueBehaviour(r, st, n)
 	st.Finish("seeded jsgen programs (hlib/jsgen.go: expressions with independent minimal parenthesisation over all binary/unary/assignment operators, statements, classes, destructuring, coercion objects) transformed by api.Transform without minify/lowering under random charset/whitespace/line-limit/format settings, original and output executed in node and probe logs compared; distinct_nontrivial = distinct program texts accepted by node")
-	if err := os.WriteFile(filepath.Join(outDir, "c01_cases.v"), []byte(cf.String()), 0o644); err != nil {
+	if err := os.WriteFile(filepath.Join(outDir, "c01_cases.v"), []byte(cf.String()+extra), 0o644); err != nil {
 		panic(err)
 	}
-	return []*Stats{st}
+	return []*Stats{sts, st}
 }
 
 type tcase struct {
